@@ -164,6 +164,7 @@ def run(tier, seed, replay=None):
     scr = []
     for goal in ((2,) if tier == "quick" else (1, 2, 3)):
         w = R.world("line4", seed * 10 + goal)
+        w.compare_act = True        # in this scenario the circuits' record of their last activity is compared, too
         try:
             gone = K.guarded(w, scripted_id_reuse, w, "o", goal)
             tr = {"events": w.events, "topology": "line4", "seed": seed, "profile": "id-reuse g%d" % goal, "aborted": gone}
